@@ -11,7 +11,9 @@ K == INSTANCE KernelExec
 Rlim(in) == IF in.rlim = 0 THEN 2000000000 ELSE in.rlim
 TooLong(in) == \E g \in DOMAIN in.groups : in.groups[g].count > 0 /\ in.groups[g].len + 1 > STRMAX
 EnvCost(in) == in.env.count * (in.env.size + 9 + PTR)
-MaybeUnfit(in) == \E g \in DOMAIN in.groups : in.groups[g].count > 0 /\ in.groups[g].len + 20000 + EnvCost(in) > K!KLimit(Rlim(in))
+\* the fixed initial arguments are part of every command line
+InitCost(in) == IF "init" \in DOMAIN in THEN in.init.count * (in.init.len + 1 + PTR) ELSE 0
+MaybeUnfit(in) == \E g \in DOMAIN in.groups : in.groups[g].count > 0 /\ in.groups[g].len + 20000 + EnvCost(in) + InitCost(in) > K!KLimit(Rlim(in))
 Total(in) == SumSeq([g \in DOMAIN in.groups |-> in.groups[g].count])
 
 \* the harness could not even start xargs with this environment under this stack limit: nothing to judge
@@ -19,7 +21,7 @@ Total(in) == SumSeq([g \in DOMAIN in.groups |-> in.groups[g].count])
 SLimit(in) == IF Len(in.opts) = 2 /\ in.opts[1] = "-s" /\ in.opts[2] = "100000" THEN 100000 ELSE 0
 InDomain(in, obs) ==
   /\ "nospawn" \notin DOMAIN obs
-  /\ (in.mode = "run" /\ SLimit(in) > 0) => \A g \in DOMAIN in.groups : in.groups[g].len + 1000 < SLimit(in)
+  /\ (in.mode = "run" /\ SLimit(in) > 0) => \A g \in DOMAIN in.groups : in.groups[g].len + 1000 + InitCost(in) < SLimit(in)
 
 Margin == 8192
 Conforms(in, obs) ==
